@@ -102,6 +102,10 @@ def run(ctx):
             for i in range(8):
                 jobs.append({"part": "noncanon", "instance": inst, "k": 4, "ks": [KS[i % 4], KS[(i + 1) % 4]], "shard": i, "nshards": 8, "stride": 7 + (ctx.seed % 5)})
 
+    # one verifier chip used for two proofs (a batching caller): the sweep of the second proof must not be weakened by the first
+    for pair in (("epochCb+epoch4R", "testdata+roottest") if thorough else ("epochCb+epoch4R",)):
+        jobs.append({"part": "two", "instance": pair, "k": 1, "ks": ["noncanon"], "stride": 24 if thorough else 6, "shard": 70})
+
     def one(j):
         return ctx.run_driver("wrapper", j, tag="nc-%s-%d" % (j["instance"], j["shard"]), timeout=3400)
 
